@@ -524,7 +524,8 @@ class StartStageHandler(
         # Atomic: store planned stage + push all start messages together.
         # We own the claim, so the only possible concurrent writers are upstream
         # completions recording join bookkeeping on this stage (a late branch of
-        # a first-of / N-of-M join finishing while the join starts). Losing that
+        # a first-of / N-of-M join finishing while the join starts) and a
+        # persistent signal being buffered on it. Losing that
         # race must not be swallowed: the stage would stay RUNNING, claimed but
         # never planned, and nothing would ever start its tasks. Adopt the other
         # writer's version (and bookkeeping) and commit the plan again.
@@ -561,7 +562,7 @@ class StartStageHandler(
                     )
                     return
                 stage.version = fresh.version
-                for key in ("_completed_branches", "_activated_branches"):
+                for key in ("_completed_branches", "_activated_branches", "_buffered_signals"):
                     if key in fresh.context:
                         stage.context[key] = fresh.context[key]
                 fresh_task_versions = {t.id: t.version for t in fresh.tasks}
